@@ -138,7 +138,7 @@ impl Queryable for AltA {
 }
 
 /// AltB: strict accessors (as_f64 is None for integers, as_i64 is None for floats), objects as parallel vectors
-#[derive(Clone, Debug, PartialEq)]
+#[derive(Clone, PartialEq)]
 pub enum AltB {
     Nil,
     B(bool),
@@ -147,6 +147,14 @@ pub enum AltB {
     S(Box<str>, String),
     A(Vec<AltB>),
     O(Vec<String>, Vec<AltB>),
+}
+
+/// `Debug` is a bound of the trait, not an accessor: AltB's prints nothing about the value (a redacting `Debug`
+/// that keeps payload out of logs); an engine that keys or compares anything on debug text confuses all values
+impl std::fmt::Debug for AltB {
+    fn fmt(&self, f: &mut std::fmt::Formatter<'_>) -> std::fmt::Result {
+        write!(f, "AltB(..)")
+    }
 }
 
 impl Default for AltB {
@@ -527,7 +535,46 @@ fn as_multiset(o: &Obs) -> Result<Vec<(String, String)>, String> {
     })
 }
 
+thread_local! {
+    /// the queries this worker thread ran in lock-step most recently (a difference that depends on what an earlier
+    /// query left behind on the thread is only reproducible together with them)
+    static RECENT_Q: std::cell::RefCell<Vec<(String, *const Value)>> = std::cell::RefCell::new(Vec::new());
+}
+
+/// the earlier (query, document) pairs of this thread, oldest first; documents are borrowed from the check's own
+/// panel, which outlives every call (they are only dereferenced when a violation is being recorded)
+fn recent_queries(q: &str, d: &Doc3) -> Vec<(String, *const Value)> {
+    RECENT_Q.with(|r| {
+        let mut r = r.borrow_mut();
+        let h = r.clone();
+        r.push((q.to_string(), &d.v as *const Value));
+        if r.len() > 24 {
+            r.remove(0);
+        }
+        h
+    })
+}
+
 pub fn lockstep(acc: &mut Acc, q: &str, d: &Doc3, class: &str) {
+    let history = recent_queries(q, d);
+    lockstep_h(acc, q, d, class, &history)
+}
+
+fn history_json(history: &[(String, *const Value)]) -> Value {
+    Value::Array(
+        history
+            .iter()
+            .map(|(q, d)| {
+                // SAFETY: see recent_queries
+                let doc = unsafe { &**d };
+                let text = serde_json::to_string(doc).unwrap_or_default();
+                json!({"query": q, "doc": if text.len() <= 4096 { doc.clone() } else { Value::Null }})
+            })
+            .collect(),
+    )
+}
+
+fn lockstep_h(acc: &mut Acc, q: &str, d: &Doc3, class: &str, history: &[(String, *const Value)]) {
     acc.evals += 1;
     let r0 = run_on(q, &d.v);
     let r1 = run_on(q, &d.a);
@@ -545,7 +592,7 @@ pub fn lockstep(acc: &mut Acc, q: &str, d: &Doc3, class: &str) {
         if r != &r0 {
             acc.viol(
                 format!("{} on {}: serde_json::Value gives {:?} but the equivalent {} gives {:?}", q, d.v, r0, name, r),
-                json!({"kind": "views", "class": class, "query": q, "doc": d.v}),
+                json!({"kind": "views", "class": class, "query": q, "doc": d.v, "history": history_json(history)}),
             );
             return;
         }
@@ -772,15 +819,54 @@ pub fn run(tier: &str) -> i32 {
 }
 
 pub fn replay(case: &Value, _run: &Run) -> Acc {
-    let mut acc = Acc::new();
     let d = Doc3::new(&case["doc"]);
     let q = case["query"].as_str().unwrap_or("$");
-    println!("query : {}", q);
-    println!("Value : {:?}", run_on(q, &d.v));
-    println!("AltA  : {:?}", run_on(q, &d.a));
-    println!("AltB  : {:?}", run_on(q, &d.b));
-    println!("AltA over member-sorted document : {:?}", run_on(q, &d.c));
-    println!("AltS  : {:?}", run_on(q, &d.s));
-    lockstep(&mut acc, q, &d, "replay");
-    acc
+    // three attempts, each on a thread of its own (per-thread state starts empty): the case alone; the case after the
+    // queries the worker thread had run before it; the case after the whole quick sentence set and that history
+    let attempt = |level: usize| -> Acc {
+        let mut acc = Acc::new();
+        std::thread::scope(|s| {
+            s.spawn(|| {
+                let mut scratch = Acc::new();
+                if level >= 2 {
+                    let panel: Vec<Doc3> = crate::checks::lang::eval_panel().iter().filter(|x| !has_big_u64(x)).map(Doc3::new).collect();
+                    for sn in sentences::sentences(false) {
+                        let text = render::query(&sn);
+                        for p in &panel {
+                            lockstep_h(&mut scratch, &text, p, "warm-up", &[]);
+                        }
+                    }
+                }
+                if level >= 1 {
+                    if let Some(h) = case["history"].as_array() {
+                        for x in h.iter() {
+                            if let Some(hq) = x["query"].as_str() {
+                                if x["doc"].is_null() {
+                                    lockstep_h(&mut scratch, hq, &d, "history", &[]);
+                                } else {
+                                    lockstep_h(&mut scratch, hq, &Doc3::new(&x["doc"]), "history", &[]);
+                                }
+                            }
+                        }
+                    }
+                }
+                lockstep_h(&mut acc, q, &d, "replay", &[]);
+            })
+            .join()
+            .expect("replay thread");
+        });
+        acc
+    };
+    for level in 0..3 {
+        let acc = attempt(level);
+        if acc.viol_count > 0 || level == 2 {
+            println!("query : {}  ({})", q, ["alone on a fresh thread", "after the worker thread's recent queries", "after the sentence set and the worker thread's recent queries"][level]);
+            println!("Value : {:?}", run_on(q, &d.v));
+            if let Some(m) = acc.first_violation() {
+                println!("{}", m.chars().take(600).collect::<String>());
+            }
+            return acc;
+        }
+    }
+    Acc::new()
 }
